@@ -27,6 +27,16 @@ PERMS = {"F": (0o644, 0o654, 0o611, 0o655, 0o600, 0o666), "X": (0o755, 0o744, 0o
 KIND_OF_MODE = {v: k for k, v in MODES.items()}
 T0 = 1_000_000_000            # explicit file times start here (2001-09-09), one second per edit
 
+# configuration profiles: settings that select another implementation of the same scan or another
+# index format without changing what status / add / checkout have to answer (git runs under the
+# same profile in phase 0, which is what shows that the specification does not depend on them)
+CONFIG_PROFILES = (
+    {},
+    {"core.preloadIndex": "true"},
+    {"core.trustctime": "false"},
+    {"core.preloadIndex": "true", "core.trustctime": "false", "index.version": "4"},
+)
+
 # --------------------------------------------------------------------------- schemes
 NAME_SCHEMES = {
     # abstract name -> concrete bytes; names not listed map to themselves.  In every scheme the name
@@ -201,6 +211,24 @@ class World:
                          ("gc.auto", "0"), ("core.fsmonitor", "false"), ("core.untrackedcache", "false")):
                 self.git("config", k, v)
         self.writer = ObjWriter(self.git_dir)
+        base = os.path.join(self.git_dir, "config.c18base")
+        if not os.path.exists(base):
+            shutil.copy(os.path.join(self.git_dir, "config"), base)
+        self.cfg = 0
+
+    def set_config(self, profile: int):
+        """Rewrite .git/config as the base configuration plus one of CONFIG_PROFILES."""
+        with open(os.path.join(self.git_dir, "config.c18base")) as f:
+            text = f.read()
+        sections = {}
+        for k, v in CONFIG_PROFILES[profile % len(CONFIG_PROFILES)].items():
+            sec, key = k.split(".")
+            sections.setdefault(sec, []).append((key, v))
+        for sec, kvs in sections.items():
+            text += f"[{sec}]\n" + "".join(f"\t{k} = {v}\n" for k, v in kvs)
+        with open(os.path.join(self.git_dir, "config"), "w") as f:
+            f.write(text)
+        self.cfg = profile
 
     # ---- plumbing
     def git(self, *args, index_file=None, check=True, input=None):
